@@ -98,6 +98,16 @@ impl<H: Host> Emulator<H> {
         self.controller.memory.ram_page_data(bank)
     }
 
+    /// Verification hook: level of the tape EAR signal and whether the deck is stopped
+    #[cfg(rustzx_verif)]
+    pub fn verif_tape(&self) -> (bool, bool) {
+        use crate::zx::tape::TapeImpl;
+        (
+            self.controller.tape.current_bit(),
+            self.controller.tape.can_fast_load(),
+        )
+    }
+
     /// Verification hook: CPU write through the bus (no time passes)
     #[cfg(rustzx_verif)]
     pub fn verif_bus_write(&mut self, addr: u16, value: u8) {
